@@ -13,6 +13,8 @@ import (
 	vestingtypes "github.com/cosmos/cosmos-sdk/x/auth/vesting/types"
 	"github.com/cosmos/cosmos-sdk/x/authz"
 	banktypes "github.com/cosmos/cosmos-sdk/x/bank/types"
+	distrtypes "github.com/cosmos/cosmos-sdk/x/distribution/types"
+	govv1 "github.com/cosmos/cosmos-sdk/x/gov/types/v1"
 	"github.com/medibloc/panacea-core/v2/app"
 	aoltypes "github.com/medibloc/panacea-core/v2/x/aol/types"
 	didtypes "github.com/medibloc/panacea-core/v2/x/did/types"
@@ -73,6 +75,14 @@ func RequiredSigners(msg sdk.Msg) []string {
 		return []string{x.FromAddress}
 	case *vestingtypes.MsgCreatePeriodicVestingAccount:
 		return []string{x.FromAddress}
+	case *distrtypes.MsgFundCommunityPool:
+		return []string{x.Depositor}
+	case *govv1.MsgSubmitProposal:
+		return []string{x.Proposer}
+	case *govv1.MsgVote:
+		return []string{x.Voter}
+	case *govv1.MsgDeposit:
+		return []string{x.Depositor}
 	case *authz.MsgGrant:
 		return []string{x.Granter}
 	case *authz.MsgRevoke:
@@ -233,6 +243,28 @@ func (w *World) preEndBlock() *endBlockObs {
 	}
 }
 
+// endBlockActivity reports what, besides the burn module, moved coins inside EndBlock:
+// governance resolving a proposal (deposit refund or burn, execution of its messages) and
+// the coins that reached the burn address there.
+func (w *World) endBlockActivity() (gov bool, received int) {
+	if w.blk == nil || !w.blk.HasEnd {
+		return
+	}
+	for _, ev := range w.blk.EndRes.Events {
+		switch ev.Type {
+		case "active_proposal", "inactive_proposal":
+			gov = true
+		case "coin_received":
+			for _, a := range ev.Attributes {
+				if a.Key == "receiver" && a.Value == BurnAddress {
+					received++
+				}
+			}
+		}
+	}
+	return
+}
+
 func (w *World) checkC07(pre *endBlockObs) error {
 	ctx := w.C.DeliverCtx()
 	sp := w.C.App.BankKeeper.SpendableCoins(ctx, w.burnAddr())
@@ -252,6 +284,23 @@ func (w *World) checkC07(pre *endBlockObs) error {
 	}
 	sup := w.C.Supply(ctx)
 	want := pre.supply.Sub(pre.spendable...)
+	if gov, received := w.endBlockActivity(); gov {
+		// governance resolved a proposal in this EndBlock: it refunds or burns deposits and
+		// may pay the burn address itself, so other balances legitimately move and the supply
+		// may shrink by more than what was spendable before EndBlock, never by less
+		w.Label("c07 governance resolved a proposal in EndBlock")
+		if received > 0 {
+			w.Label("c07 coins reached the burn address inside EndBlock")
+		}
+		if !want.IsAllGTE(sup) && !sup.IsEqual(want) {
+			return vio("C07", "supply after EndBlock is %s, expected at most %s (before %s minus spendable %s)", sup, want, pre.supply, pre.spendable)
+		}
+		burnMod := authtypes.NewModuleAddress("burn").String()
+		if post := w.C.Balances(ctx); !post[burnMod].IsZero() {
+			return vio("C07", "burn module account holds %s after EndBlock", post[burnMod])
+		}
+		return nil
+	}
 	if !sup.IsEqual(want) {
 		return vio("C07", "supply after EndBlock is %s, expected %s (before %s minus spendable %s)", sup, want, pre.supply, pre.spendable)
 	}
